@@ -12,8 +12,8 @@ CBMC_BASE = ["--no-malloc-may-fail", "--no-undefined-shift-check", "--no-signed-
              "--object-bits", "16"]
 CBMC_TAIL = ["--sat-solver", "cadical", "--slice-formula"]
 
-RES_RE = re.compile(r"^\[(?P<name>.*)\.(?P<cls>[a-zA-Z_-]+)\.(?P<n>\d+)\] line (?P<line>\d+) (?P<desc>.*): (?P<st>SUCCESS|FAILURE|UNKNOWN|ERROR)$")
-RES2_RE = re.compile(r"^\[(?P<name>.*)\.(?P<cls>[a-zA-Z_-]+)\.(?P<n>\d+)\] (?P<desc>.*): (?P<st>SUCCESS|FAILURE|UNKNOWN|ERROR)$")
+RES_RE = re.compile(r"^\[(?:(?P<name>.*)\.)?(?P<cls>[a-zA-Z_-]+)\.(?P<n>\d+)\] line (?P<line>\d+) (?P<desc>.*): (?P<st>SUCCESS|FAILURE|UNKNOWN|ERROR)$")
+RES2_RE = re.compile(r"^\[(?:(?P<name>.*)\.)?(?P<cls>[a-zA-Z_-]+)\.(?P<n>\d+)\] (?P<desc>.*): (?P<st>SUCCESS|FAILURE|UNKNOWN|ERROR)$")
 HDR_RE = re.compile(r"^(?P<file>\S.*) function (?P<fn>.*)$")
 ID_RE = re.compile(r"\[(KANI_CHECK_ID_[^\]]+)\] ?")
 
@@ -82,21 +82,38 @@ def codegen(crate_dir, zflags=(), cargo_args=(), rustflags=None, harness_filters
 
 
 def parse_cbmc(out):
+    """Parse CBMC's property table.  A record starts with '[name.class.N]' at the beginning of a line
+    and ends with ': STATUS' at the end of a line; descriptions may contain line breaks (Kani prints
+    the source text of assert! messages), so records are re-joined before matching."""
     checks = []
     cur_file, cur_fn = None, None
+    END = re.compile(r": (SUCCESS|FAILURE|UNKNOWN|ERROR|UNREACHABLE|SATISFIED|UNSATISFIABLE)$")
+    START = re.compile(r"^\[(?:.*\.)?[a-zA-Z_-]+\.\d+\] ")
+    buf = None
+    records = []
     for ln in out.splitlines():
-        m = RES_RE.match(ln)
-        if not m:
-            m2 = RES2_RE.match(ln)
-            if m2:
-                d = m2.groupdict()
-                d["line"] = "0"
-                m = m2
+        if buf is not None:
+            buf += " " + ln.strip()
+            if END.search(ln):
+                records.append(buf)
+                buf = None
+            continue
+        if START.match(ln):
+            if END.search(ln):
+                records.append(ln)
             else:
-                h = HDR_RE.match(ln)
-                if h and not ln.startswith("["):
-                    cur_file, cur_fn = h.group("file"), h.group("fn")
-                continue
+                buf = ln
+            continue
+        h = HDR_RE.match(ln)
+        if h:
+            records.append(("HDR", h.group("file"), h.group("fn")))
+    for rec in records:
+        if isinstance(rec, tuple):
+            cur_file, cur_fn = rec[1], rec[2]
+            continue
+        m = RES_RE.match(rec) or RES2_RE.match(rec)
+        if not m:
+            continue
         d = m.groupdict()
         d.setdefault("line", "0")
         desc = d["desc"]
@@ -104,7 +121,7 @@ def parse_cbmc(out):
         cid = idm.group(1) if idm else None
         if d["cls"] == "reachability_check":
             cid = desc.strip()
-        checks.append({"fn": d["name"], "cls": d["cls"], "n": int(d["n"]), "line": int(d["line"] or 0),
+        checks.append({"fn": d["name"] or "", "cls": d["cls"], "n": int(d["n"]), "line": int(d["line"] or 0),
                        "desc": ID_RE.sub("", desc).strip(), "id": cid, "status": d["st"], "file": cur_file})
     return checks
 
@@ -160,6 +177,19 @@ def verify_one(h, timeout, mem_gb, extra_cbmc=()):
         return res
     res["checks"] = checks
     res["raw_tail"] = out[-1500:]
+    # cross-check the parser against CBMC's own summary ("** N of M failed")
+    sm = re.search(r"\*\* (\d+) of (\d+) failed", out)
+    if sm:
+        n_fail, n_tot = int(sm.group(1)), int(sm.group(2))
+        if n_tot != len(checks) or n_fail != sum(1 for c in checks if c["status"] == "FAILURE"):
+            res.update(status="undecided", reason="property table parse mismatch: parsed %d/%d, CBMC reports %d/%d" %
+                       (sum(1 for c in checks if c["status"] == "FAILURE"), len(checks), n_fail, n_tot), log=out[-2000:])
+            del res["checks"]
+            return res
+    else:
+        res.update(status="undecided", reason="no CBMC summary line", log=out[-2000:])
+        del res["checks"]
+        return res
     classify(res)
     return res
 
@@ -180,7 +210,7 @@ def classify(res):
             covers.append({"desc": c["desc"], "covered": c["status"] == "FAILURE" or c["status"] == "SATISFIED"})
             continue
         desc = c["desc"]
-        mm = re.match(r'concat! ?\("OBL ", "([^"]*)"\)', desc)
+        mm = re.search(r'concat ?! ?\("OBL ", "([^"]*)"\)', desc)
         if mm:
             desc = c["desc"] = "OBL " + mm.group(1)
         is_obl = "OBL " in desc
